@@ -311,15 +311,31 @@ type runner struct {
 
 	crashed    bool // an abrupt stop happened: resurrected entries may sit in pool and limbo at once
 	strictHeap bool
+	known      []string // occurrences of the open known finding (see fail)
 	gapAcct    map[int]bool // accounts whose dangling tail was explained by the C42-gap-after-stale-prefix mechanism
 	snaps      int
 	lastOp     bool
 	deepBefore bool
 }
 
+// fail records an oracle failure.  The open known finding (stable prefix knownStale) is kept
+// apart: it is reported only when it is the sole failure of the case, so that its entry in
+// known_findings.json can never swallow a different failure of the same history.
 func (r *runner) fail(format string, a ...interface{}) {
-	if len(r.oracle) < 4 {
-		r.oracle = append(r.oracle, fmt.Sprintf(format, a...))
+	msg := fmt.Sprintf(format, a...)
+	if strings.HasPrefix(msg, knownStale) {
+		if len(r.known) == 0 {
+			r.known = append(r.known, msg)
+		}
+		return
+	}
+	for _, m := range r.oracle {
+		if m == msg {
+			return
+		}
+	}
+	if len(r.oracle) < 6 {
+		r.oracle = append(r.oracle, msg)
 	}
 }
 
@@ -600,6 +616,10 @@ func (r *runner) check(d *blobpool.VerifDump, q, l []storeEnt, afterInit bool) {
 			r.fail("indexed account %d not reserved", ai)
 		}
 		sum := new(uint256.Int)
+		var (
+			minTip           *uint256.Int
+			minFee, minBlob float64
+		)
 		for i, m := range txs {
 			if i > 0 && m.Nonce != txs[i-1].Nonce+1 && (r.deep || r.gapAcct[int(ai)]) {
 				r.tags["deep-stale-gap"] = true // after a skipped (>64 deep) reorg the pool is never rechecked
@@ -619,17 +639,22 @@ func (r *runner) check(d *blobpool.VerifDump, q, l []storeEnt, afterInit bool) {
 				// reinjected and gapped-promoted txs are not filtered by the pool tip (not part of the property)
 				r.tags["below-tip-pooled"] = true
 			}
-			// rolling minima
-			wantTip, wantFee, wantB := m.ExecTipCap, m.BasefeeJumps, m.BlobfeeJumps
-			if i > 0 {
-				p := txs[i-1]
-				if p.EvictionExecTip != nil && p.EvictionExecTip.Lt(wantTip) {
-					wantTip = p.EvictionExecTip
+			// eviction fields == prefix minima recomputed from scratch over the account's list (all three dimensions)
+			if i == 0 {
+				minTip, minFee, minBlob = m.ExecTipCap, m.BasefeeJumps, m.BlobfeeJumps
+			} else {
+				if m.ExecTipCap.Lt(minTip) {
+					minTip = m.ExecTipCap
 				}
-				wantFee, wantB = math.Min(wantFee, p.EvictionExecFeeJumps), math.Min(wantB, p.EvictionBlobFeeJumps)
+				minFee, minBlob = math.Min(minFee, m.BasefeeJumps), math.Min(minBlob, m.BlobfeeJumps)
 			}
-			if m.EvictionExecTip == nil || !m.EvictionExecTip.Eq(wantTip) || m.EvictionExecFeeJumps != wantFee || m.EvictionBlobFeeJumps != wantB {
-				r.fail("eviction thresholds of tx %d are not the rolling minima", r.tid(m.Hash))
+			switch {
+			case m.EvictionExecTip == nil || !m.EvictionExecTip.Eq(minTip):
+				r.fail("eviction tip of tx %d (account %d position %d) is not the minimum over the prefix", r.tid(m.Hash), ai, i)
+			case m.EvictionExecFeeJumps != minFee:
+				r.fail("eviction exec-fee jumps of tx %d (account %d position %d) are not the minimum over the prefix", r.tid(m.Hash), ai, i)
+			case m.EvictionBlobFeeJumps != minBlob:
+				r.fail("eviction blob-fee jumps of tx %d (account %d position %d) are not the minimum over the prefix", r.tid(m.Hash), ai, i)
 			}
 			if m.BasefeeJumps != blobpool.VerifDynamicFeeJumps(m.ExecFeeCap) || m.BlobfeeJumps != blobpool.VerifDynamicBlobFeeJumps(m.BlobFeeCap) {
 				r.fail("jumps of tx %d not a function of its fee caps", r.tid(m.Hash))
@@ -958,6 +983,7 @@ func run(c Sx) (res Result) {
 	first, _ := r.snapshot(true)
 	obs = append(obs, L(I(0), first))
 	okAdds, resets := 0, 0
+	cutCase := false
 
 	for oi, o := range ops {
 		r.lastOp = oi == len(ops)-1
@@ -1072,6 +1098,7 @@ func run(c Sx) (res Result) {
 			panic("hxlib: unknown op")
 		}
 		if cut {
+			cutCase = true
 			r.tags["cut"] = true
 			obs = append(obs, L(I(cutObs)))
 			break
@@ -1079,8 +1106,19 @@ func run(c Sx) (res Result) {
 		dsx, _ := r.snapshot(afterInit)
 		obs = append(obs, L(I(ec), dsx))
 	}
+	if !cutCase {
+		r.finalReopen()
+	}
 	res.Obs = obs
-	res.Oracle = strings.Join(r.oracle, " | ")
+	switch {
+	case len(r.oracle) > 0:
+		res.Oracle = strings.Join(r.oracle, " | ")
+		if len(r.known) > 0 {
+			res.Oracle += " | (the case also shows the open evict-heap tie-break finding)"
+		}
+	case len(r.known) > 0:
+		res.Oracle = r.known[0]
+	}
 	for t := range r.tags {
 		res.Tags = append(res.Tags, t)
 	}
